@@ -21,7 +21,7 @@ def one_trace(rng, tid, prop):
     for _ in range(2):
         spec = gen.rand_poly_spec(rng, shape=rng.choice([(), (2,), (2, 2), (1, 2)]), names=names, kind=kind,
                                   max_terms=4, max_exp=3)
-        polys.append(rec.new(build_poly(spec)))
+        polys.append(gen.maybe_view(rec, rng, rec.new(build_poly(spec)), 0.2))
     for _ in range(rng.randint(4, 8)):
         a = rng.choice(polys)
         nm = rec.obj(a).names
